@@ -371,7 +371,7 @@ impl T {
             T::Utf8 | T::LargeUtf8 | T::Binary | T::LargeBinary => 2,
             T::Utf8View | T::BinaryView => 3,
             T::Dict(..) => 6,
-            T::Ree(..) => 8,
+            T::Ree(_, v) => 8 * v.layouts().min(6),
             T::Struct(ts) => ts.iter().map(|t| t.layouts()).max().unwrap_or(1).min(4),
             T::List(t) | T::LargeList(t) | T::Map(_, t) => 2 * t.layouts().min(3),
             T::ListView(t) | T::LargeListView(t) => 3 * t.layouts().min(2),
@@ -533,9 +533,11 @@ fn child(t: &T, col: &[V], layout: usize, g: G) -> Option<ArrayRef> {
     if g.child_slice {
         let mut longer = vec![t.fill(true)];
         longer.extend_from_slice(col);
-        Some(build(t, &longer, layout, g)?.slice(1, col.len()))
+        // a layout number that does not exist for this column falls back to layout 0
+        let a = build(t, &longer, layout, g).or_else(|| build(t, &longer, 0, g))?;
+        Some(a.slice(1, col.len()))
     } else {
-        build(t, col, layout, g)
+        build(t, col, layout, g).or_else(|| build(t, col, 0, g))
     }
 }
 
@@ -756,15 +758,17 @@ pub fn build(t: &T, col: &[V], layout: usize, g: G) -> Option<ArrayRef> {
             dict_array(*k, &keys, key_nulls, values)
         }
         T::Ree(r, inner) => {
+            // layout = (run partition number, layout of the values child)
             let parts = run_partitions(col);
-            let ends = parts.get(layout)?;
+            let ends = parts.get(layout % 8)?;
+            let cl = layout / 8;
             let mut vals = vec![];
             let mut start = 0;
             for e in ends {
                 vals.push(col[start].clone());
                 start = *e;
             }
-            let values = child(inner, &vals, 0, g)?;
+            let values = child(inner, &vals, cl, g)?;
             ree_array(*r, ends, values)
         }
         T::Struct(ts) => {
